@@ -397,20 +397,24 @@ def judge(ctx, dev, op, out, trace, dump, case=None, faults=()):
                         expected='every Get Info / Read / Write FRU Data request carries fru id %d' % fid,
                         observed='%d:%s' % (t[0], lean.hexs(t[1])))
             return      # whatever else is wrong with this run follows from the misaddressed request
-    if fid not in store or fid > 255 or len(store[fid]) > 65535:
+    if fid not in store or fid > 255 or len(store[fid]) > 65536:
         return
     content = store[fid]
+    # "FRU contents up to 64 KiB": the 16-bit offset of Read / Write FRU Data addresses bytes 0..FFFFh, so a device may
+    # hold 65536 bytes and an explicit range may end at 10000h; the size Get FRU Inventory Area Info reports is a
+    # 16-bit field, a 65536-byte device says FFFFh (Spec.Fru.infoSize) and THAT is "the whole inventory area"
+    reported = min(len(content), 0xFFFF)
     if kind in ('read', 'full'):
         if not _limit_ok(dev):
             return
         half = False
         if kind == 'full':
-            want = content
+            want = content[:reported]
         else:
             # the requested range of read_fru_data(offset=None, count=None): `count` bytes from `offset` (from the
             # start when no offset is given), and - no count given - everything from there to the end of the area
             off = 0 if op[2] == 'n' else int(op[2])
-            cnt = max(len(content) - off, 0) if op[3] == 'n' else int(op[3])
+            cnt = max(reported - off, 0) if op[3] == 'n' else int(op[3])
             if off + cnt > len(content):
                 return
             want = content[off:off + cnt]
@@ -1157,6 +1161,34 @@ def run(ctx):
         fid = int(dev['frus'][0][0])
         go(dev, ['full', str(fid)], 'large')
         go(dev, ['read', str(fid), str(big - 40), '40'], 'large')
+    # 3b. THE END OF THE 16-BIT OFFSET SPACE ("contents up to 64 KiB, all (offset, count) ranges"): devices holding
+    #     exactly 65536 / 65535 / 65534 bytes, explicit ranges that touch the last byte(s) - (n-1, 1), (n-2, 2),
+    #     (n-16, 16), ... a range longer than one request, offsets FF00h..FFFFh with counts that stay inside - a full
+    #     read, an offset alone, writes whose last byte lands at the end; a range that leaves the 64 KiB (model only)
+    erng = ctx.rng('c10-64k')
+    for n in ([65536, 65535, 65534] if quick else [65536, 65535, 65534, 65536, 65533, 65280]):
+        ends = [(n - 1, 1), (n - 2, 2), (n - 16, 16), (n - 7, 7), (n - 32, 32), (n - 33, 33), (n - 255, 255),
+                (n - 256, 256), (0xFC00, n - 0xFC00), (0xFF00, 16), (0xFFF0, min(15, n - 0xFFF0)), (n - 2, 1),
+                (0xFFFD, 1), (0xFF00 + erng.randrange(0, 0xF0), erng.randrange(1, 16))]
+        if n != 65536 and quick:
+            ends = ends[:4] + [erng.choice(ends[4:])]
+        for lim, cc, short in ((255, 0xCA, False), (16, 0xC8, False), (2, 0xC9, False), (5, 0xCA, False), (31, 0xCA, True)):
+            dev = gen_device(erng, sizes=[0, 9, 300], big=n)
+            dev.update(limit=lim, cc=cc, short=short, wmax=255)
+            fid = int(dev['frus'][0][0])
+            picks = ends if (lim == 255 or not quick) else [ends[0], erng.choice(ends[1:4]), erng.choice(ends[4:])]
+            for off, cnt in picks:
+                go(dev, ['read', str(fid), str(off), str(cnt)], 'large')
+                ctx.count('64k:range-ends-at:%s' % ('10000h' if off + cnt == 65536 else 'FFFFh' if off + cnt == 65535
+                                                    else 'below'))
+            ctx.count('64k:device-bytes:%d' % n)
+            if lim == 255:
+                go(dev, ['full', str(fid)], 'large')
+                go(dev, ['read', str(fid), str(n - 5), 'n'], 'large')
+                go(dev, ['read', str(fid), str(n - 1), '2'], 'large')          # leaves the contents: model only
+                for ln, wl in ((1, 16), (16, 16), (17, 16), (40, 255), (33, 5)):
+                    go(dev, ['write', str(fid), str(n - ln), lean.hexs(_blob(erng, ln)), str(wl)], 'large')
+                    ctx.count('64k:write-ends-at:%s' % ('10000h' if n == 65536 else 'below'))
     # 4. writes: aligned / unaligned chunks, short acknowledges
     for _ in range(120 if quick else 1500):
         dev = gen_device(rng, sizes=[16, 17, 40, 64, 100, 300])
